@@ -256,6 +256,54 @@ as_le_bytes() returns the input. distinct = distinct arrays tried (all non-trivi
     }
     rep.distinct_extra += rep.evals;
     total.merge(rep);
+    // ---- all threads validate structurally close keys at the same time (N, 0, and keys that differ from them in one or two
+    //      bytes in different 8-byte words): a verdict remembered or assembled across threads would show
+    if tier != "miri" {
+        let rounds: u64 = if tier == "quick" { 400_000 } else { 6_000_000 };
+        let conc = par(threads(), threads(), |t| {
+            let mut rep = Rep::new();
+            let mut rng = Rng::new(seed, 0xC04_C000 + t as u64);
+            for i in 0..rounds {
+                let base = if (i + t as u64) % 2 == 0 { N_LE } else { [0u8; 32] };
+                let mut x = base;
+                match rng.below(6) {
+                    0 => {}
+                    1 | 2 => {
+                        let p = rng.below(32) as usize;
+                        x[p] = x[p].wrapping_add(1 + rng.below(255) as u8);
+                    }
+                    3 => {
+                        // a whole 8-byte word or a 16-byte half replaced
+                        let w = rng.below(4) as usize;
+                        for j in 0..8 {
+                            x[w * 8 + j] = rng.byte();
+                        }
+                    }
+                    4 => {
+                        let h = rng.below(2) as usize;
+                        for j in 0..16 {
+                            x[h * 16 + j] = rng.byte();
+                        }
+                    }
+                    _ => {
+                        let other = if base == N_LE { [0u8; 32] } else { N_LE };
+                        let h = rng.below(2) as usize;
+                        for j in 0..16 {
+                            x[h * 16 + j] = other[h * 16 + j];
+                        }
+                    }
+                }
+                let got = call(x);
+                if got != expect(&x) {
+                    judge(&mut rep, "concurrent_close_keys", x);
+                }
+            }
+            rep.ev(rounds);
+            rep.count("concurrent_close_key_validations", rounds);
+            rep
+        });
+        total.merge(conc);
+    }
     // ---- random arrays and random family masks
     let nrand: u64 = match tier {
         "quick" => 4_000_000,
